@@ -456,3 +456,15 @@ Definition file_fits (c : catalog) : bool := zlen (enc_catalog c) <? 2 ^ 64.
 
 Definition is_builtin_name (n : str) : bool := zlist_eqb n name_root || zlist_eqb n name_syscat.
 Definition has_user_schema (c : catalog) : bool := existsb (fun s => negb (is_builtin_name (s_name s))) c.
+
+(* ------------------------------------------------------------------ witnesses of the two codec classes *)
+(* CREATE INDEX ixe ON t1 (lower(name)); CREATE INDEX ixp ON t1 (name) WHERE id > 3 *)
+Definition ex_expr_table : table :=
+  Table 3 [116;49] [Column [110;97;109;101] 20 [] None None] None
+    [Index [105;120;101] [IdxCol (ICExpr [108;111;119;101;114;40;110;97;109;101;41]) false] false false None;
+     Index [105;120;112] [IdxCol (ICColumn [110;97;109;101]) false] false false (Some [40;105;100;32;71;116;32;51;41])]
+    None.
+Definition ex_expr_catalog : catalog := [Schema 0 name_root [ex_expr_table]; Schema 1 name_syscat []].
+(* CREATE SCHEMA analytics *)
+Definition ex_user_catalog : catalog :=
+  [Schema 0 name_root []; Schema 1 name_syscat []; Schema 2 [97;110;97;108;121;116;105;99;115] []].
